@@ -1,3 +1,3 @@
 import IV.Model.CleanProto
-/-! driver for C09: the protocol handler lives in IV/Model/CleanProto.lean (shared by C09 and C10) -/
+/-! driver for C10: the protocol handler lives in IV/Model/CleanProto.lean (shared by C09 and C10) -/
 def main : IO Unit := IV.Proto.serveState ({} : IV.CleanProto.D) IV.CleanProto.handle
